@@ -80,25 +80,24 @@ func (obj *RuneReader) ReadRune() (r rune, size int, err error) {
 		obj.lastRune = r
 	} else {
 		buf := make([]byte, 4)
-		var cnt int
-		if cnt, err = obj.Read(buf[:1]); cnt == 1 && err == nil {
+		if err = obj.fill(buf[:1]); err == nil {
 			switch {
 			case buf[0] < 0x80:
 				r = rune(buf[0])
 				size = 1
 			case (buf[0] & 0xf8) == 0xf0: // 11110xxx
 				// 4 byte rune
-				if cnt, err = obj.Read(buf[1:]); cnt == 3 && err == nil {
+				if err = obj.fill(buf[1:]); err == nil {
 					r, size = utf8.DecodeRune(buf)
 				}
 			case (buf[0] & 0xf0) == 0xe0: // 1110xxxx
 				// 3 byte rune
-				if cnt, err = obj.Read(buf[1:3]); cnt == 2 && err == nil {
+				if err = obj.fill(buf[1:3]); err == nil {
 					r, size = utf8.DecodeRune(buf)
 				}
 			case (buf[0] & 0xe0) == 0xc0: // 110xxxxx
 				// 2 byte rune
-				if cnt, err = obj.Read(buf[1:2]); cnt == 1 && err == nil {
+				if err = obj.fill(buf[1:2]); err == nil {
 					r, size = utf8.DecodeRune(buf)
 				}
 			}
@@ -107,6 +106,29 @@ func (obj *RuneReader) ReadRune() (r rune, size int, err error) {
 			err = fmt.Errorf("invalid UTF8 character")
 		}
 		obj.lastRune = r
+	}
+	return
+}
+
+// fill reads until b is full. A reader is free to hand over fewer bytes than
+// asked for and to report the end of the stream together with the last bytes,
+// then the end is reported with the next read.
+func (obj *RuneReader) fill(b []byte) (err error) {
+	for n, empty := 0, 0; n < len(b); {
+		var cnt int
+		cnt, err = obj.Read(b[n:])
+		n += cnt
+		switch {
+		case err != nil:
+			if errors.Is(err, io.EOF) && n == len(b) {
+				err = nil
+			}
+			return
+		case cnt == 0:
+			if empty++; 100 < empty {
+				return io.ErrNoProgress
+			}
+		}
 	}
 	return
 }
@@ -149,8 +171,7 @@ func (obj *RuneReader) ReadByte() (b byte, err error) {
 		obj.lastRune = rune(b)
 	} else {
 		buf := []byte{0}
-		var cnt int
-		if cnt, err = obj.Read(buf); cnt == 1 && err == nil {
+		if err = obj.fill(buf); err == nil {
 			b = buf[0]
 			obj.lastRune = rune(b)
 		}
